@@ -23,10 +23,18 @@ type Query struct {
 	Decls  string
 	Text   string
 	Params map[string]string // parameter name -> SMT constant holding its entry value
+	Observe []obsTerm        // terms whose model values describe the slice / map arguments (replay)
 	Broken string            // the contract clause cannot be evaluated on this tree (it names something that is gone): never discharged
 }
 
+// obsTerm: a term evaluated in the counterexample model (get-value) for the replay.
+type obsTerm struct {
+	Name string
+	Term string
+}
+
 type Exec struct {
+	observe []obsTerm
 	w     *World
 	sp    *Specs
 	prog  *Program
@@ -422,7 +430,7 @@ func (x *Exec) oblige(st *State, kind, name string, tags []string, goal string) 
 	if goal == "true" {
 		return
 	}
-	q := &Query{Ob: x.fn.name() + "#" + name, Kind: kind, Func: x.fn.name(), Tags: tags, Goal: implies(st.guard(), goal), Expect: "unsat", Params: x.params}
+	q := &Query{Ob: x.fn.name() + "#" + name, Kind: kind, Func: x.fn.name(), Tags: tags, Goal: implies(st.guard(), goal), Expect: "unsat", Params: x.params, Observe: x.observe}
 	q.PC = st.pc[:len(st.pc):len(st.pc)]
 	q.Trail = st.trail[:len(st.trail):len(st.trail)]
 	x.qs = append(x.qs, q)
